@@ -292,6 +292,9 @@ fn global_key(metadata: &Metadata, defines: &[String]) -> Option<String> {
     // The emitter lays out restored files' outputs under `[format]`, and a
     // cache hit skips emit, so a format change must invalidate the store.
     let format = toml::to_string(&metadata.format).ok()?;
+    // `$prop::NAME` symbols take their values from `[properties]`, which the
+    // restored files' pass2 and emit (both skipped) would have read.
+    let properties = toml::to_string(&metadata.properties).ok()?;
     let lockfile = fs::read_to_string(&metadata.lockfile_path).unwrap_or_default();
     let defines = defines.join("\x1f");
     // Keyed on the binary itself, not just the version (see binary_fingerprint).
@@ -303,6 +306,7 @@ fn global_key(metadata: &Metadata, defines: &[String]) -> Option<String> {
         &build,
         &lint,
         &format,
+        &properties,
         &lockfile,
         &defines,
     ]))
